@@ -26,7 +26,7 @@ def main():
             'evidence_file': f'/verif/evidence/{pid}.json',
             'replay_cmd_template': f'./check {pid} --replay {{path}}',
             'engine': 'coq-model',
-            'level_claimed': {'category': 'proof', 'text': m.LEVEL_TEXT, 'design_ref': f'DESIGN.md section 7, {pid}'},
+            'level_claimed': {'category': getattr(m, 'LEVEL_CATEGORY', 'proof'), 'text': m.LEVEL_TEXT, 'design_ref': f'DESIGN.md section 7, {pid}'},
             'level_note': m.LEVEL_NOTE,
             'technique': m.TECHNIQUE,
         })
